@@ -283,6 +283,20 @@ def stepCore (s : St) (op impl : String) : St × StepOut :=
         [("accept_within_advertised", "-",
           s!"CONNECTION_ID_LIMIT_ERROR with {unretired} unretired connection IDs, advertised active_connection_id_limit {s.adv}")]
       else []
+    -- Retire Prior To is honoured: judged for frames that carry a new highest sequence number (such a frame is neither a
+    -- retransmission nor reordered, so nothing allows the endpoint to skip its Retire Prior To): once it has been
+    -- processed without error, no sequence number below Retire Prior To is in use any more — not queued, not assigned to
+    -- a probed path, and not active either (the code rotates to a replacement in the same call; one always exists, the
+    -- frame's own connection ID) — and each such number received earlier has appeared in a RETIRE_CONNECTION_ID
+    let newHighest := s.mg.received.all (· < seq)
+    let okRes := implHead == "ok" || implHead == "E:CONNECTION_ID_LIMIT_ERROR"
+    let rf : List Fail :=
+      if newHighest && okRes then
+        ((im.inUse.filter (· < rpt)).map fun x =>
+          ("retire_prior_to_honoured", "-", s!"sequence number {x} is still in use after Retire Prior To {rpt} was processed (in use: {im.inUse})")) ++
+        ((s.mg.received.filter fun x => x < rpt && !retiredNow.contains x).map fun x =>
+          ("retire_prior_to_honoured", "-", s!"sequence number {x} < Retire Prior To {rpt} was never reported with RETIRE_CONNECTION_ID"))
+      else []
     let tag := match res with
       | .ok => if evs.isEmpty && m' == m then "new:ignored"
                else if m'.activeSeq ≠ m.activeSeq then "new:rotate"
@@ -293,8 +307,9 @@ def stepCore (s : St) (op impl : String) : St × StepOut :=
       (if rpt > m.highestRetired && (m.queue.any fun e => e.seq < rpt) then ["new:rpt-queue"] else []) ++
       (if m.probing.any (fun pe => pe.2.seq == seq) then ["new:dup-probing"] else []) ++
       (if seq == m.activeSeq then ["new:dup-active"] else []) ++
-      (if m.queue.any (fun e => e.seq == seq) then ["new:dup-queued"] else [])
-    finM { s with newSeen := true } m' (fmtRes res) evs implEvs same im (if processed then some seq else none) false tags af implHead
+      (if m.queue.any (fun e => e.seq == seq) then ["new:dup-queued"] else []) ++
+      (if rpt ≤ m.highestRetired && m.probing.any (fun pe => pe.2.seq < rpt) && k > 0 then ["new:rpt-probing-below-floor"] else [])
+    finM { s with newSeen := true } m' (fmtRes res) evs implEvs same im (if processed then some seq else none) false tags (af ++ rf) implHead
   | ["pref", id, tok] =>
     if s.newSeen then skip else
     let (s, m) := s.ensureM
